@@ -15,19 +15,24 @@ pub fn def() -> PropDef {
         programs,
         strum_features: &["derive", "phf"],
         profiles: &["dev"],
-        rule: "programs: C01's sub-domain whose non-default variants are field-less (+Clone), <=k deviations from the 3-variant base over a pool with \
+        rule: "programs: C01's sub-domain whose non-default variants are field-less (+Clone) — spellings MAY overlap between variants (on inputs matched by several \
+               variants only the differential comparison applies) —, <=k deviations from the 3-variant base over a pool with \
                mixed-case, all-lower, all-upper, caseless (\"1\", \"-\", \"é\") and empty spellings, case-insensitivity at enum and variant level, default and \
                disabled variants; every spec is rendered TWICE in the same module (plain enum E, twin P with #[strum(use_phf)]). oracle: (a) the module compiles — a \
                diagnostic is a violation ('accepted without, rejected with'); (b) for every input of C01's set obs(E::from_str(s)) == obs(P::from_str(s)) == \
                obs(P::try_from(s)) == R-parse(s). non-trivial = accepted input or near-miss reject; distinct per (program, input)",
         trusted_base: &["rustc", "phf 0.11", "derived Debug", "generated vidx() matches", "vf-core R-parse"],
         assumptions: &["the plain twin is compiled in the same module, so a compile error is attributed to the pair"],
-        required_outcomes: &["accept", "reject", "accept-case-folded", "default-capture", "reject-near-miss"],
+        required_outcomes: &["accept", "reject", "accept-case-folded", "default-capture", "reject-near-miss", "ambiguous-input-differential"],
     }
 }
 
+/// C01's field-less sub-domain, *without* the "spellings do not overlap" restriction: the statement compares the two
+/// parsers on every enum the plain derive accepts. Overlapping programs are tagged (aux.overlap): on inputs matched by
+/// several variants only the differential comparison applies (there is no reference answer), and a compile error in
+/// such a program is not reported (see pipeline).
 fn domain(s: &EnumSpec) -> bool {
-    parse_domain(s) && s.variants.iter().all(|v| v.default || v.kind.is_unit())
+    parse_domain_overlap_ok(s) && s.variants.iter().all(|v| v.default || v.kind.is_unit())
 }
 
 pub fn programs(tier: Tier) -> ProgramSet {
@@ -50,7 +55,8 @@ pub fn programs(tier: Tier) -> ProgramSet {
     let mut out = Vec::new();
     for e in specs {
         let source = render(&e.spec);
-        out.push(Program { idx: 0, label: e.label, k: e.k, spec: e.spec, aux: json!(null), source });
+        let aux = overlap_aux(&e.spec);
+        out.push(Program { idx: 0, label: e.label, k: e.k, spec: e.spec, aux, source });
     }
     for (mut spec, label) in scale_specs() {
         // field-less version
@@ -63,7 +69,7 @@ pub fn programs(tier: Tier) -> ProgramSet {
         }
     }
     let mut exm = std::collections::BTreeMap::new();
-    exm.insert("overlapping spellings / data variants".to_string(), ex as u64);
+    exm.insert("data variants / two default variants".to_string(), ex as u64);
     ProgramSet { programs: finish(out), excluded: exm, bounds: json!({"N": 3, "k_max": k, "literal_pool": c.pool, "twins": ["plain", "use_phf"]}) }
 }
 
@@ -99,6 +105,7 @@ pub fn explore(ctx: &mut Ctx, plain: &mut dyn FnMut(&str) -> Obs, phf: &mut dyn 
     let spec = ctx.spec().clone();
     let inp = family_inputs(ctx);
     let spellings = all_spellings(&spec);
+    let overlapping = ctx.program.aux["overlap"] == true;
     for s in &inp {
         ctx.state();
         ctx.transitions(3);
@@ -112,6 +119,15 @@ pub fn explore(ctx: &mut Ctx, plain: &mut dyn FnMut(&str) -> Obs, phf: &mut dyn 
         // pure differential first (no reference involved), then both against the reference
         let d = ctx.expect_eq("phf-differs-from-plain", &i, &a.show(), &b.show());
         let e = ctx.expect_eq("phf-try_from-differs-from-plain", &i, &a.show(), &c.show());
+        if overlapping && refsem::parse_candidates(&spec).filter(|(_, v)| refsem::matches(&spec, v, s)).count() > 1 {
+            // matched by several variants: no reference answer, the two parsers must still agree
+            ctx.count("ambiguous_inputs_differential_only", 1);
+            ctx.outcome("ambiguous-input-differential");
+            if d && e {
+                ctx.nontrivial(s);
+            }
+            continue;
+        }
         let f = ctx.expect_eq("plain-vs-reference", &i, &w, &a.show());
         match &wp {
             Parsed::Ok(vi, _) => {
